@@ -201,6 +201,15 @@ Reopen ==
   /\ res' = [op |-> "Reopen"]
   /\ UNCHANGED disk
 
+(* Copy(): an independent StateDB holding the same state.  In THIS StateDB nothing changes, now or through anything
+   later done to the copy - that is the whole specification of the action.  The binding forks here: the copy is
+   written to (all accounts, its own snapshot + revert, a copy of the copy after its finalisation) and must
+   behave like a StateDB that reached this state by the same history, while this one carries on with the
+   behaviour as if no copy had been taken (journal, revisions and dirtiness included: CopyIndependent). *)
+Copy ==
+  /\ res' = [op |-> "Copy"]
+  /\ UNCHANGED <<acc, trie, journal, revs, nextId, pend, disk, saved, stale>>
+
 (* GetProof(a) verified against the account-trie root: defined when nothing is un-finalised.
    r = "present"/"absent" (the driver compares the proven account body with the getters) *)
 ProveAccount(a, r) ==
@@ -224,6 +233,7 @@ Next ==
   \/ Commit
   \/ Reopen
   \/ \E a \in Addrs, r \in {"present", "absent"} : ProveAccount(a, r)
+  \/ Copy
 
 Spec == Init /\ [][Next]_vars
 
@@ -266,6 +276,9 @@ FinalisedClean ==
 
 \* the committed content changes only at a Commit
 DiskStable == [][ res'.op # "Commit" => disk' = disk ]_vars
+
+\* taking a copy is invisible to the StateDB it was taken from
+CopyIndependent == [][ res'.op = "Copy" => UNCHANGED <<acc, trie, journal, revs, nextId, pend, disk, saved, stale>> ]_vars
 
 \* an account proof reports presence exactly for existing accounts
 ProofYieldsValueOrAbsence ==
